@@ -66,7 +66,16 @@ type settingsAssign struct {
 	pos     token.Pos
 }
 
-func ruleSettings(c *Ctx) {
+type settingsModelT struct {
+	applyFd, normFd *ast.FuncDecl
+	root, rawObj    types.Object
+	leaves          []settingsLeaf
+	assigns         []settingsAssign
+}
+
+// settingsModel reads the settings parser: which configuration key is converted by which converter and
+// stored into which field of the settings structure.
+func settingsModel(c *Ctx, report bool) *settingsModelT {
 	spk := c.P.ByRel["internal/server"]
 	info := spk.TypesInfo
 	// settings root type: the struct type of the Server field guarded by the settings mutex: by role, the
@@ -104,10 +113,11 @@ func ruleSettings(c *Ctx) {
 		}
 	}
 	if applyFd == nil || normFd == nil {
-		c.undecided("T6", "server", "settings parser", token.NoPos, "could not identify the settings apply function (serverSettings, map[string]any) serverSettings and the normaliser (serverSettings) serverSettings")
-		return
+		if report {
+			c.undecided("T6", "server", "settings parser", token.NoPos, "could not identify the settings apply function (serverSettings, map[string]any) serverSettings and the normaliser (serverSettings) serverSettings")
+		}
+		return nil
 	}
-	aname, nname := c.P.declName(applyFd), c.P.declName(normFd)
 	var root types.Object
 	var rawObj types.Object
 	for _, fl := range applyFd.Type.Params.List {
@@ -121,20 +131,53 @@ func ruleSettings(c *Ctx) {
 	}
 	var leaves []settingsLeaf
 	settingsLeaves(root.Type(), "", &leaves)
-	c.census("T6", "settings leaves (from the type definitions)", len(leaves), 15)
 
 	// collect assignments
 	var assigns []settingsAssign
-	var walk func(list []ast.Stmt, section string, mapObj types.Object)
-	walk = func(list []ast.Stmt, section string, mapObj types.Object) {
+	// walk visits the statements of the apply function (and of the helpers it hands a part of the settings
+	// and a raw map to); `root` is the variable holding the settings (or a section of them, then `prefix`
+	// is that section's path), `mapObj` the raw map being read, `section` the nested key it was found under.
+	var walk func(list []ast.Stmt, root types.Object, prefix string, section string, mapObj types.Object, depth int)
+	pathOf := func(e ast.Expr, root types.Object, prefix string) (string, bool) {
+		p, ok := selectorPath(info, e, root)
+		if !ok {
+			return "", false
+		}
+		if prefix != "" && p != "" {
+			return prefix + "." + p, true
+		}
+		return prefix + p, true
+	}
+	walk = func(list []ast.Stmt, root types.Object, prefix string, section string, mapObj types.Object, depth int) {
 		for _, st := range list {
 			ifs, ok := st.(*ast.IfStmt)
 			if !ok {
+				// `settings.Sec = helper(settings.Sec, secRaw)`: the helper applies the keys of secRaw to the section
+				if as, ok := st.(*ast.AssignStmt); ok && len(as.Lhs) == 1 && len(as.Rhs) == 1 && depth < 3 {
+					if call, ok := ast.Unparen(as.Rhs[0]).(*ast.CallExpr); ok && len(call.Args) == 2 {
+						lp, okL := pathOf(as.Lhs[0], root, prefix)
+						ap, okA := pathOf(call.Args[0], root, prefix)
+						if o, isFn := calleeOf(info, call).(*types.Func); isFn && okL && okA && lp == ap && info.Uses[identOf(call.Args[1])] == mapObj && mapObj != nil {
+							if decl := c.P.declOf[o]; decl != nil && decl.Body != nil && decl.Type.Params != nil {
+								var ps []types.Object
+								for _, fl := range decl.Type.Params.List {
+									for _, n := range fl.Names {
+										ps = append(ps, info.Defs[n])
+									}
+								}
+								if len(ps) == 2 && returnsParam(info, decl, ps[0]) {
+									walk(decl.Body.List, ps[0], lp, section, ps[1], depth+1)
+									continue
+								}
+							}
+						}
+					}
+				}
 				// assignments to settings outside an ok-guard
 				ast.Inspect(st, func(x ast.Node) bool {
 					if as, ok := x.(*ast.AssignStmt); ok {
 						for _, l := range as.Lhs {
-							if p, ok := selectorPath(info, l, root); ok && p != "" {
+							if p, ok := pathOf(l, root, prefix); ok && p != prefix {
 								assigns = append(assigns, settingsAssign{section, "?", "?", p, false, as.Pos()})
 							}
 						}
@@ -145,7 +188,7 @@ func ruleSettings(c *Ctx) {
 			}
 			init, ok := ifs.Init.(*ast.AssignStmt)
 			if !ok || len(init.Rhs) != 1 || len(init.Lhs) != 2 {
-				walk(ifs.Body.List, section, mapObj)
+				walk(ifs.Body.List, root, prefix, section, mapObj, depth)
 				continue
 			}
 			okObj := info.Defs[identOf(init.Lhs[1])]
@@ -158,7 +201,7 @@ func ruleSettings(c *Ctx) {
 				// section: raw["sec"].(map[string]interface{})
 				if ix, ok := ast.Unparen(rhs.X).(*ast.IndexExpr); ok {
 					if key, ok := stringConst(info, ix.Index); ok && info.Uses[identOf(ix.X)] == mapObj {
-						walk(ifs.Body.List, key, info.Defs[identOf(init.Lhs[0])])
+						walk(ifs.Body.List, root, prefix, key, info.Defs[identOf(init.Lhs[0])], depth)
 						continue
 					}
 				}
@@ -178,7 +221,7 @@ func ruleSettings(c *Ctx) {
 									continue
 								}
 								for i, l := range as.Lhs {
-									if p, ok := selectorPath(info, l, root); ok && p != "" {
+									if p, ok := pathOf(l, root, prefix); ok && p != prefix {
 										// RHS must be the converted value (possibly scaled by a constant)
 										usesVal := false
 										if i < len(as.Rhs) {
@@ -198,10 +241,41 @@ func ruleSettings(c *Ctx) {
 					}
 				}
 			}
-			walk(ifs.Body.List, section, mapObj)
+			walk(ifs.Body.List, root, prefix, section, mapObj, depth)
 		}
 	}
-	walk(applyFd.Body.List, "", rawObj)
+	walk(applyFd.Body.List, root, "", "", rawObj, 0)
+	return &settingsModelT{applyFd, normFd, root, rawObj, leaves, assigns}
+}
+
+// fieldForKey returns the name of the settings field that the configuration key (dotted form,
+// e.g. "completion.maxResults") is stored into, or the fallback if the parser does not mention the key.
+func (m *settingsModelT) fieldForKey(key, fallback string) string {
+	if m != nil {
+		for _, a := range m.assigns {
+			k := a.key
+			if a.section != "" {
+				k = a.section + "." + a.key
+			}
+			if k == key {
+				parts := strings.Split(a.target, ".")
+				return parts[len(parts)-1]
+			}
+		}
+	}
+	return fallback
+}
+
+func ruleSettings(c *Ctx) {
+	m := settingsModel(c, true)
+	if m == nil {
+		return
+	}
+	spk := c.P.ByRel["internal/server"]
+	info := spk.TypesInfo
+	applyFd, normFd, root, leaves, assigns := m.applyFd, m.normFd, m.root, m.leaves, m.assigns
+	aname, nname := c.P.declName(applyFd), c.P.declName(normFd)
+	c.census("T6", "settings leaves (from the type definitions)", len(leaves), 15)
 	c.census("T6", "guarded settings assignments in the apply function", len(assigns), 30)
 
 	byTarget := map[string][]settingsAssign{}
@@ -281,21 +355,17 @@ func ruleSettings(c *Ctx) {
 		}
 	}
 	guardedLeaves := map[string]string{}
-	ast.Inspect(normFd.Body, func(x ast.Node) bool {
-		ifs, ok := x.(*ast.IfStmt)
+	for _, g := range guardsIn(normFd.Body) {
+		be, ok := ast.Unparen(g.Cond).(*ast.BinaryExpr)
 		if !ok {
-			return true
-		}
-		be, ok := ast.Unparen(ifs.Cond).(*ast.BinaryExpr)
-		if !ok {
-			return true
+			continue
 		}
 		p, ok := selectorPath(ninfo, be.X, nroot)
 		if !ok {
-			return true
+			continue
 		}
 		// body assigns the same leaf
-		for _, bs := range ifs.Body.List {
+		for _, bs := range g.Body {
 			if as, ok := bs.(*ast.AssignStmt); ok {
 				for _, l := range as.Lhs {
 					if p2, ok := selectorPath(ninfo, l, nroot); ok && p2 == p {
@@ -304,8 +374,7 @@ func ruleSettings(c *Ctx) {
 				}
 			}
 		}
-		return true
-	})
+	}
 	nNum := 0
 	for _, lf := range leaves {
 		ts := types.TypeString(lf.typ, nil)
@@ -327,10 +396,23 @@ func ruleSettings(c *Ctx) {
 			continue
 		}
 		finfo := spk.TypesInfo
+		// a store into a settings field is not a use of the setting
+		stored := map[ast.Node]bool{}
+		ast.Inspect(fd.Body, func(x ast.Node) bool {
+			if as, ok := x.(*ast.AssignStmt); ok && as.Tok == token.ASSIGN {
+				for _, l := range as.Lhs {
+					stored[ast.Unparen(l)] = true
+				}
+			}
+			return true
+		})
 		ast.Inspect(fd.Body, func(x ast.Node) bool {
 			se, ok := x.(*ast.SelectorExpr)
 			if !ok {
 				return true
+			}
+			if stored[se] {
+				return false
 			}
 			// build type-based path: walk selectors while the base type is one of the settings structs
 			var parts []string
@@ -377,6 +459,24 @@ func ruleSettings(c *Ctx) {
 	}
 	ruleConverters(c)
 	ruleSettingsTotal(c)
+}
+
+// returnsParam: every return statement of the function returns the given parameter itself.
+func returnsParam(info *types.Info, decl *ast.FuncDecl, param types.Object) bool {
+	n, ok := 0, true
+	ast.Inspect(decl.Body, func(x ast.Node) bool {
+		if _, isLit := x.(*ast.FuncLit); isLit {
+			return false
+		}
+		if r, isRet := x.(*ast.ReturnStmt); isRet {
+			n++
+			if len(r.Results) != 1 || info.Uses[identOf(r.Results[0])] != param {
+				ok = false
+			}
+		}
+		return true
+	})
+	return ok && n > 0
 }
 
 func fieldOfRoot(t types.Type, name string) *types.Var {
